@@ -2,8 +2,10 @@
 SPECIFICATION Spec
 CONSTANTS
   KwPermitted = FALSE
-  LatOor = {"lenient", "strict"}
-  LatRec = {"lenient", "strict"}
+  OorLenient = {"copy", "fetch", "move", "store"}
+  OorStrict = {"copy", "fetch", "move", "store"}
+  RecLenient = {"append", "store"}
+  RecStrict = {"append", "store"}
   AppendKw = {"drop", "keep"}
   Inits = {"empty", "std"}
   MaxCmds = 1
